@@ -35,6 +35,9 @@ type WorldOpts struct {
 // something (that is C01/C02/C04's business; callers treat it as inconclusive).
 func GenWorld(r *rand.Rand, tmp string, prefix string, o WorldOpts) (*World, error) {
 	w := &World{Schema: GenSchema(r)}
+	if !o.Jumbo && fnv32(prefix)%8 == 0 { // some worlds carry field names of >= 128 bytes
+		w.Schema.LongNames()
+	}
 	nb := o.Bases
 	if nb == 0 {
 		nb = 2 + r.Intn(2)
@@ -170,6 +173,14 @@ func (w *World) partial() *World {
 		s.X.Index()
 	}
 	return w
+}
+
+func fnv32(s string) uint32 {
+	h := uint32(2166136261)
+	for i := 0; i < len(s); i++ {
+		h = (h ^ uint32(s[i])) * 16777619
+	}
+	return h
 }
 
 func pick(r *rand.Rand, xs ...int) int { return xs[r.Intn(len(xs))] }
